@@ -45,8 +45,13 @@ def call_init(sg, c, t):
         return getattr(init, f)(t, gain=float(Fraction(*c["gain"])))
     if f in ("kaiming_uniform_", "kaiming_normal_"):
         return getattr(init, f)(t, a=float(Fraction(*c["slope"])), mode=c["mode"], nonlinearity=c["nl"])
+    num = (lambda v: np.float64(v)) if c.get("argform") == "np64" else float
     if f == "constant_":
-        return init.constant_(t, 3.5)
+        return init.constant_(t, num(3.5))
+    if f == "uniform_":
+        return init.uniform_(t, num(-1.5), num(1.5))
+    if f == "normal_":
+        return init.normal_(t, num(0.0), num(2.0))
     return getattr(init, f)(t)
 
 
@@ -54,7 +59,7 @@ def check_case(sg, rep, o, seed, big):
     c, e = o["c"], o["e"]
     f = c["f"]
     sq = Fraction(*e["sq"])
-    key = f + (":" + c.get("mode", "") if "mode" in c else "")
+    key = f + (":" + c.get("mode", "") if "mode" in c else "") + (":np64-args" if c.get("argform") == "np64" else "")
     for dtype in (np.float32, np.float64):
         for rg in (False, True):
             if f in ("Linear", "Conv1d", "Conv2d"):
@@ -105,7 +110,9 @@ def check_case(sg, rep, o, seed, big):
         shape = (200, 300)
         c2 = dict(c, shape=list(shape))
         fi, fo = shape[1], shape[0]
-        if f.startswith("xavier"):
+        if f in ("uniform_", "normal_"):
+            sq2 = float(sq)
+        elif f.startswith("xavier"):
             g = float(Fraction(*c["gain"]))
             sq2 = g * g * (6 if "uniform" in f else 2) / (fi + fo)
         else:
